@@ -591,6 +591,13 @@ class Interp:
                 if r is not NotImplemented:
                     return r
         cenv = caller.env if caller is not None else {}
+        if callee and callee.get("trait") and not callee.get("res"):
+            # an unresolved trait-method call: an impl for the receiver's runtime value overrides the trait's default body
+            tb0 = self.dispatch_trait(callee, args, cenv)
+            if tb0 is not None and tb0.impl_trait is not None:
+                env = self.bind_env(tb0, None, cenv)
+                env.update(self.infer_env(tb0, args))
+                return self.call_body(tb0, args, depth + 1, env=env)
         b = self.prog.lookup(path)
         if b is None and callee and (callee.get("res") or {}).get("path"):
             b = self.prog.lookup(callee["res"]["path"])
